@@ -273,7 +273,7 @@ func neutralise(w *check.World, id string) *check.World {
 				for vi := range st.Call.Values {
 					v := &st.Call.Values[vi]
 					switch v.K {
-					case "s", "b":
+					case "s", "b", "ds":
 						v.S = []byte(fix(string(v.S)))
 					case "ss":
 						for k := range v.L {
